@@ -3,7 +3,9 @@
 import json, os, sys
 HERE = os.path.dirname(os.path.abspath(__file__))
 sys.path.insert(0, HERE)
-from plan import PLAN, CLAIMS
+from plan import PLAN, CLAIMS, BROKEN
+if BROKEN:
+    sys.exit('plan files that do not load: %r' % BROKEN)
 from claims import NOT_APPLICABLE, HOOK_COMMITS
 
 ROOT = os.path.dirname(HERE)
